@@ -13,10 +13,20 @@ Line protocol (stateful; one answer per line):
   doe <a> <b> <samples rats> <failing rats|-> <callback order nats|[]>   -> par=<k:v;..> seq=<k:v;..>  (value a*k+b)
   cache <keys rats>               -> cache keys in order (value = key)
   lin <orats>                     -> positional jacobian list (jacobian = 2*value)
+  call <inputs: rats|[]>          next execute() on the same executor (callables, nProcs kept) -> state, or
+                                  `disabled` while the current call has not joined its workers
+  ncalls                          -> number of finished calls of the session
+  kinit | ko <x> <v> | kj <x> <j> | kget <x>    shared full cache with Jacobians: reset / cache_outputs /
+                                  cache_jacobian -> `last=<i> e=<x:out:jac;...>` ; look-up -> `x:out:jac` or `_`
+        spec may also be Q:a:b:c:<fail inputs>:<stop inputs>   (x ↦ a*x^2+b*x+c)
 state = p=.. qi=.. w=.. qo=.. ord=.. cb=.. n=.. stop=.. last=.. sent=.. col=..
 -/
 
-abbrev St := Option (Cfg Rat Rat × State Rat)
+structure DSt where
+  sess : Option (Sess Rat Rat)
+  jc : JCache Rat Rat Rat
+
+abbrev St := DSt
 
 def parseBarRats (s : String) : Option (List Rat) :=
   if s = "-" then some [] else (s.splitOn "|").mapM parseRat?
@@ -25,6 +35,11 @@ def parseCallable (s : String) : Option (Rat → Outcome Rat) :=
   if s = "F" then some (fun _ => .fail)
   else if s = "S" then some (fun _ => .failStop)
   else match s.splitOn ":" with
+    | ["Q", a, b, c, f, st] =>
+      match parseRat? a, parseRat? b, parseRat? c, parseBarRats f, parseBarRats st with
+      | some a, some b, some c, some f, some st =>
+        some (fun x => if st.contains x then .failStop else if f.contains x then .fail else .ok (a * x * x + b * x + c))
+      | _, _, _, _, _ => none
     | [a, b, f, st] =>
       match parseRat? a, parseRat? b, parseBarRats f, parseBarRats st with
       | some a, some b, some f, some st =>
@@ -59,13 +74,21 @@ def showState (s : State Rat) : String :=
   let last := match s.last with | none => "_" | some o => showOut o
   s!"p={showNatList s.pending} qi={qi} w={showList (s.workers.map showW)} qo={qo} ord={showORats s.ordered} cb={showCbs s.cbLog} n={s.nOutputs} stop={if s.stop then 1 else 0} last={last} sent={if s.sent then 1 else 0} col={showNatList s.collected}"
 
-def doOp (st : St) (op : Op) : St × String :=
-  match st with
+def doSOp (st : St) (op : SOp Rat) : St × String :=
+  match st.sess with
   | none => (st, "no-init")
-  | some (c, s) =>
-    match step? c s op with
-    | some s' => (some (c, s'), showState s')
+  | some se =>
+    match sstep? se op with
+    | some se' => ({ st with sess := some se' }, showState se'.st)
     | none => (st, "disabled")
+
+def doOp (st : St) (op : Op) : St × String := doSOp st (.op op)
+
+def showJEntry (e : JEntry Rat Rat Rat) : String :=
+  showRat e.key ++ ":" ++ showORat e.out ++ ":" ++ showORat e.jac
+
+def showJCache (c : JCache Rat Rat Rat) : String :=
+  s!"last={c.last} e={showList (c.entries.map showJEntry) ";"}"
 
 def showDb (db : Db Rat Rat) : String :=
   showList (db.map (fun e => showRat e.1 ++ ":" ++ showORat e.2)) ";"
@@ -76,25 +99,49 @@ def answer (st : St) (line : String) : St × String :=
     match np.toNat?, parseRatList? ins, parseCallables cs with
     | some np, some ins, some cs =>
       let c : Cfg Rat Rat := ⟨ins, cs, np⟩
-      (some (c, init c), showState (init c))
+      ({ st with sess := some (sinit c) }, showState (init c))
     | _, _, _ => (st, "bad-init")
   | ["S"] => doOp st .submit
   | ["T", w] => match w.toNat? with | some w => doOp st (.take w) | none => (st, "bad-op")
   | ["F", w] => match w.toNat? with | some w => doOp st (.finish w) | none => (st, "bad-op")
   | ["C"] => doOp st .collect
   | ["X"] => doOp st .shutdown
-  | ["result"] =>
-    match st with
+  | ["call", ins] =>
+    match parseRatList? ins with
+    | some ins => doSOp st (.call ins)
+    | none => (st, "bad-op")
+  | ["ncalls"] =>
+    match st.sess with
     | none => (st, "no-init")
-    | some (_, s) =>
+    | some se => (st, toString se.past.length)
+  | ["kinit"] => ({ st with jc := JCache.empty }, showJCache JCache.empty)
+  | ["ko", x, v] =>
+    match parseRat? x, parseRat? v with
+    | some x, some v => let c := jCacheOutputs st.jc x v; ({ st with jc := c }, showJCache c)
+    | _, _ => (st, "bad-op")
+  | ["kj", x, j] =>
+    match parseRat? x, parseRat? j with
+    | some x, some j => let c := jCacheJacobian st.jc x j; ({ st with jc := c }, showJCache c)
+    | _, _ => (st, "bad-op")
+  | ["kget", x] =>
+    match parseRat? x with
+    | some x => (st, match jLookup st.jc.entries x with | some e => showJEntry e | none => "_")
+    | none => (st, "bad-op")
+  | ["result"] =>
+    match st.sess with
+    | none => (st, "no-init")
+    | some se =>
+      let s := se.st
       let r := match s.result with
         | .raised => "raised"
         | .returned o => "returned " ++ showORats o
       (st, s!"final={if s.final then 1 else 0} {r}")
   | ["seq"] =>
-    match st with
+    match st.sess with
     | none => (st, "no-init")
-    | some (c, _) => (st, s!"seq={showORats (seqMap c)} cbs={showCbs (seqCallbacks c)}")
+    | some se =>
+      let c := se.cfg
+      (st, s!"seq={showORats (seqMap c)} cbs={showCbs (seqCallbacks c)}")
   | ["doe", a, b, samples, failing, cbs] =>
     match parseRat? a, parseRat? b, parseRatList? samples, parseBarRats failing, parseNatList? cbs with
     | some a, some b, some xs, some fl, some cbs =>
@@ -112,4 +159,4 @@ def answer (st : St) (line : String) : St × String :=
     | none => (st, "bad-op")
   | _ => (st, "bad-op")
 
-def main : IO Unit := driverLoop answer (none : St)
+def main : IO Unit := driverLoop answer ({ sess := none, jc := JCache.empty } : St)
